@@ -43,15 +43,19 @@ def gen_config_large(rnd):
     so that every minishard holds one group of 2^preshift adjacent identifiers: far-apart
     chunks can be stored without the writer having to fill millions of gaps."""
     e = [rnd.randint(3, 12) for _ in range(3)]
-    if rnd.random() < 0.35:
+    huge = rnd.random()
+    if huge < 0.35:
         e = [rnd.randint(11, 12) for _ in range(3)]     # identifiers beyond 2^32
+    elif huge < 0.6:
+        # identifiers beyond 2^53 (not exactly representable in a float64) up to 2^63
+        e = [rnd.randint(18, 21) for _ in range(3)]
     grid = [rnd.choice([2 ** x, 2 ** x - 1, 2 ** x - rnd.randint(1, 2 ** (x - 1))])
             for x in e]
     total = sum(morton_spec.bits_per_axis(grid))
     pre = rnd.randint(0, 3)
     rest = max(0, total - pre)
     mini = rnd.randint(0, min(6, rest))
-    shard = rest - mini + rnd.randint(0, 3)
+    shard = rest - mini + rnd.randint(0, max(0, min(3, 64 - total)))
     return {
         "grid": grid, "chunk": rnd.choice([1, 2]), "rem": [0, 0, 0],
         "minishard_bits": mini, "shard_bits": shard, "preshift_bits": pre,
